@@ -72,6 +72,14 @@ def check(ctx):
 
     mod = ctx.repo.module(AS)
     cls = mod.cls("CtxAwareTransformer")
+    # read-only properties that name one level of the context stack (`_global_ctx` -> self.contexts[1])
+    CTX_PROPS = {}
+    for pn, pf in class_methods(cls).items():
+        if any("property" in unparse(d) for d in pf.decorator_list):
+            rs_ = [r for r in walk_local(pf) if isinstance(r, ast.Return) and r.value is not None]
+            if len(rs_) == 1 and isinstance(rs_[0].value, ast.Subscript) and unparse(rs_[0].value.value) == "self.contexts":
+                k_ = rs_[0].value.slice
+                CTX_PROPS[pn] = -const_value(k_.operand, 0) if isinstance(k_, ast.UnaryOp) and isinstance(k_.op, ast.USub) else const_value(k_, None)
     for construct, (fields, descend) in BINDERS.items():
         if not hasattr(ast, construct):
             continue  # construct does not exist on the running interpreter
@@ -85,6 +93,8 @@ def check(ctx):
                 st = f"{AS}:CtxAwareTransformer.visit_ExceptHandler"
         if not ctx.ob("R1", st, f"a binder visitor for {construct} exists (names bound by it must keep later lines Python)", fn is not None, key=f"missing-visitor|{construct}", where=loc(cls)):
             continue
+        # (the registration, or the collection of the names, may sit in a helper shared by several visitors: judge the expanded visitor)
+        fn = flat(ctx, fn, 1, skip=("ctxadd", "ctxupdate", "ctxremove", "generic_visit", "visit"))
         # names registered: arguments of the context mutators, traced back through local
         # names (assignments, loop targets, and in-place growth of local collections)
         defs = df.all_defs(fn)
@@ -92,7 +102,7 @@ def check(ctx):
         for c in calls_in(fn):
             if isinstance(c.func, ast.Attribute) and isinstance(c.func.value, ast.Name) and c.func.attr in ("update", "add", "append", "extend"):
                 grow.setdefault(c.func.value.id, []).extend(c.args)
-        muts = [c for c in calls_in(fn) if last_attr(c) in CTX_MUTATORS and (unparse(c.func).startswith("self.ctx") or unparse(c.func).startswith("self.contexts"))]
+        muts = [c for c in calls_in(fn) if last_attr(c) in CTX_MUTATORS and (unparse(c.func).startswith("self.ctx") or unparse(c.func).startswith("self.contexts") or (isinstance(c.func, ast.Attribute) and isinstance(c.func.value, ast.Attribute) and unparse(c.func.value.value) == "self" and c.func.value.attr in CTX_PROPS))]
         got = set()
         seen_names = set()
 
@@ -141,7 +151,7 @@ def check(ctx):
     # global: names go to the module-level context
     fg, _ = _resolve_visitor(cls, "visit_Global")
     if fg is not None:
-        ok = any(isinstance(n, ast.Call) and unparse(n.func) == "self.contexts[1].update" for n in ast.walk(fg))
+        ok = any(isinstance(n, ast.Call) and (unparse(n.func) == "self.contexts[1].update" or (isinstance(n.func, ast.Attribute) and n.func.attr == "update" and isinstance(n.func.value, ast.Attribute) and unparse(n.func.value.value) == "self" and CTX_PROPS.get(n.func.value.attr) == 1)) for n in ast.walk(fg))
         ctx.ob("R1", f"{AS}:CtxAwareTransformer.visit_Global", "`global` names are registered in the module-level context (contexts[1])", ok, key="global-level")
     fd, _ = _resolve_visitor(cls, "visit_Delete")
     if fd is not None:
@@ -149,7 +159,7 @@ def check(ctx):
         ctx.ob("R1", f"{AS}:CtxAwareTransformer.visit_Delete", "`del name` removes the name (later lines return to command interpretation)", ok, key="delete-removes")
     cr = class_methods(cls).get("ctxremove")
     if cr is not None:
-        ok = any(isinstance(n, ast.For) and "reversed(self.contexts)" in unparse(n.iter) for n in ast.walk(cr))
+        ok = any(isinstance(n, (ast.For, ast.comprehension)) and "reversed(self.contexts)" in unparse(n.iter) for n in ast.walk(cr))
         ctx.ob("R1", f"{AS}:CtxAwareTransformer.ctxremove", "removal searches the scopes innermost first", ok, key="ctxremove-order")
 
     # ------------------------------------------------------------------ R2
